@@ -104,7 +104,7 @@ func (c *Collection) GetRaw(key string) (val []byte, cas CAS, err error) {
 
 // isTombstone returns true if the document is a tombstone.
 func (c *Collection) isTombstone(q queryable, key string) bool {
-	row := q.QueryRow("SELECT 1 FROM documents WHERE collection=? AND key=? AND tombstone=1", c.id, key)
+	row := q.QueryRow("SELECT 1 FROM documents WHERE collection=? AND key=? AND value IS NULL", c.id, key)
 	var i int
 	err := scan(row, &i)
 	return err == nil
@@ -156,7 +156,7 @@ func (c *Collection) add(key string, exp Exp, val []byte, isJSON bool) (added bo
 			`INSERT INTO documents (collection,key,value,cas,exp,isJSON, revSeqNo) VALUES (?1,?2,?3,?4,?5,?6,?7)
 				ON CONFLICT(collection,key) DO
 					UPDATE SET value=?3, xattrs=null, cas=?4, exp=?5, isJSON=?6
-					WHERE tombstone != 0`,
+					WHERE value IS NULL`,
 			c.id, key, val, newCas, exp, isJSON, 1, revSeqNo)
 		if err != nil {
 			return
@@ -317,7 +317,7 @@ func (c *Collection) WriteCas(key string, exp Exp, cas CAS, val any, opt sgbucke
 		wasTombstone := false
 		var revSeqNo uint64
 		if cas != 0 {
-			row := txn.QueryRow("SELECT revSeqNo, tombstone FROM documents WHERE collection=? AND key=?", c.id, key)
+			row := txn.QueryRow("SELECT revSeqNo, value IS NULL FROM documents WHERE collection=? AND key=?", c.id, key)
 			err = scan(row, &revSeqNo, &wasTombstone)
 			if err != nil {
 				return nil, remapKeyError(err, key)
@@ -329,21 +329,21 @@ func (c *Collection) WriteCas(key string, exp Exp, cas CAS, val any, opt sgbucke
 		if (opt & sgbucket.Append) != 0 {
 			// Append:
 			sql = `UPDATE documents SET value=value || ?1, cas=?2, exp=?6, isJSON=?7,revSeqNo=?8,
-						xattrs=iif(tombstone != 0, null, xattrs)
+						xattrs=iif(value IS NULL, null, xattrs)
 				   WHERE collection=?3 AND key=?4 AND cas=?5`
 		} else if (opt&sgbucket.AddOnly) != 0 || cas == 0 {
 			// Insert, but fall back to Update if the doc is a tombstone
 			sql = `INSERT INTO documents (collection, key, value, cas, exp, isJSON,revSeqNo) VALUES(?3,?4,?1,?2,?6,?7,?8)
 					ON CONFLICT(collection,key) DO
 						UPDATE SET value=?1, xattrs=null, cas=?2, exp=?6, isJSON=?7, tombstone=0, revSeqNo=?8
-						WHERE tombstone == 1`
+						WHERE value IS NULL`
 			if !wasTombstone && cas != 0 {
 				sql += ` AND cas=?5`
 			}
 		} else {
 			// Regular write:
 			sql = `UPDATE documents SET value=?1, cas=?2, exp=?6, isJSON=?7, revSeqNo=?8,
-						xattrs=iif(tombstone != 0, null, xattrs)
+						xattrs=iif(value IS NULL, null, xattrs)
 				   WHERE collection=?3 AND key=?4 AND cas=?5`
 		}
 		result, err := txn.Exec(sql, raw, newCas, c.id, key, cas, exp, isJSON, revSeqNo)
